@@ -136,6 +136,29 @@ def run_case(case):
         hb = Sh["halo_class"]
         if np.ptp(q2) > 0:
             sigs.append(f"{case['idx']}|dh")
+        # ... and on every cell of the window, also those whose values come from the halo: for a source that stays inside the window
+        # when it is moved, re-centring on a point s cells from the centre gives the field of the source moved by -s cells
+        rr = gen.rng_for(case["seed"], "C06w", case["idx"])
+        if nx2 >= 8 and ny2 >= 8:
+            q3 = np.zeros((ny2, nx2))
+            bj, bi = slice(ny2 // 4 + 1, ny2 - ny2 // 4 - 1), slice(nx2 // 4 + 1, nx2 - nx2 // 4 - 1)
+            q3[bj, bi] = rr.uniform(0.5, 1.5, size=q3[bj, bi].shape)
+            s_x, s_y = int(rr.integers(-(nx2 // 4), nx2 // 4 + 1)), int(rr.integers(-(ny2 // 4), ny2 // 4 + 1))
+            if s_x == 0 and s_y == 0:
+                s_x = 1
+            counters["solver_calls"] += 2
+            _, cw, fw = solve.solve(Sh, q3, lv2, precision=prec, srf_bg_conc=bg, meas_pt=((nx2 // 2 + s_x) * dx2, (ny2 // 2 + s_y) * dy2))
+            _, cm, fm = solve.solve(Sh, np.roll(q3, (-s_y, -s_x), axis=(0, 1)), lv2, precision=prec, srf_bg_conc=bg)
+            for nm, A, B in (("conc", cm, cw), ("flx", fm, fw)):
+                counters["recentre_whole_window_cells"] = counters.get("recentre_whole_window_cells", 0) + int(A.size)
+                e = float(np.max(np.abs(B - A))) / max(float(np.max(np.abs(A - (bg if nm == "conc" else 0.0)))), 1e-300)
+                key = f"recentring_whole_window_{prec}"
+                resid[key] = max(resid.get(key, 0.0), e)
+                tolw = solve.tol(prec, Sh["G"], cr=Sh["cr"])  # two different source spectra: rounding amplified by e^G, as everywhere
+                if not e <= tolw:
+                    viol.append(dict(what="recentring", field=nm, rel=e, tol=tolw, precision=prec, point=(nx2 // 2 + s_x, ny2 // 2 + s_y),
+                                     halo=Sh["halo"], setup=gen.describe(Sh),
+                                     note="whole window against the field of the source moved the other way (cells fed from the halo included)"))
         # (c) with a halo: the footprint for a tower is the point reflection about the tower of the response to a unit source
         # placed there, on the cells both returned fields cover
         it, jt = int(rng.integers(nx2)), int(rng.integers(ny2))
